@@ -2,7 +2,11 @@
 """copy confirmed seeded changes from the scratch worktrees into /verif/seeded/<id>/ (patch.diff, demo.py, meta.json)"""
 import json, os, shutil, sys
 HERE = os.path.dirname(os.path.dirname(os.path.abspath(__file__)))
-for wt in sys.argv[1:]:
+TAG = ''
+args = sys.argv[1:]
+if args and args[0].startswith('--tag='):
+    TAG = args.pop(0)[6:]
+for wt in args:
     prop = os.path.basename(wt.rstrip('/'))
     sd = os.path.join(wt, '_seed')
     if not os.path.isdir(sd):
@@ -16,7 +20,7 @@ for wt in sys.argv[1:]:
         if not e.get('confirmed'):
             print('not confirmed, skipped:', prop, m)
             continue
-        out = os.path.join(HERE, 'seeded', '%s-%s' % (prop, m))
+        out = os.path.join(HERE, 'seeded', '%s-%s%s' % (prop, TAG, m))
         os.makedirs(out, exist_ok=True)
         shutil.copy(os.path.join(d, 'patch.diff'), out)
         shutil.copy(os.path.join(d, 'demo.py'), out)
